@@ -180,14 +180,20 @@ def r2_suffix(ctx):
     clos = [f for f in facts.closures_of(SF)]
     reader = {}
     rname = None
+    # the char -> piece map of the reader, tabulated by partial evaluation on all 128 ASCII characters (any spelling: match, lookup table)
     for c in clos:
-        outs = Engine(facts).run(c.name)
-        for o in outs:
-            if o.kind == 'return' and o.value[0] == 'agg' and o.value[2] == PIECE_ADT:
-                ch = [val for a, val in o.conds if isinstance(val, int)]
-                if len(ch) == 1:
-                    reader[chr(ch[0])] = o.value[3]
-                    rname = c.name
+        if c.arg_count != 2 or c.local_ty(2) != 'char':
+            continue
+        tbl = {}
+        for code in range(128):
+            outs = [o for o in Engine(facts, unroll=True).run(c.name, args=[None, C(code)]) if o.kind != 'abort']
+            if len(outs) == 1 and outs[0].kind == 'return' and outs[0].value[0] == 'agg' and outs[0].value[2] == PIECE_ADT:
+                tbl[chr(code)] = outs[0].value[3]
+            elif outs:
+                tbl[chr(code)] = '?'
+        if tbl:
+            reader = tbl
+            rname = c.name
     if rname:
         ctx.touch(rname)
     inv = {v: k for k, v in writer.items()}
